@@ -26,6 +26,8 @@ structure Diag where
   line : Nat
   c1 : Nat
   c2 : Nat
+  so : Nat      -- the byte range of the package (what `utf16_span` needs to put `c1`, `c2` on the wire in UTF-16 units)
+  eo : Nat
 deriving Repr, DecidableEq
 
 inductive Msg
@@ -86,7 +88,7 @@ def diagnose (s : Srv) (reg : String) (pkgs : List PkgInfo) : List Diag :=
   | some m =>
     pkgs.filterMap fun p =>
       (Checker.diagFor m (readsOf s ⟨reg.toList, p.name⟩) p.version).map fun (sev, msg) =>
-        ⟨sev, msg, p.line, p.column, p.column + p.endOffset - p.startOffset⟩
+        ⟨sev, msg, p.line, p.column, p.column + p.endOffset - p.startOffset, p.startOffset, p.endOffset⟩
 
 def setDoc (docs : List (Text × List PkgInfo)) (uri : Text) (pkgs : List PkgInfo) : List (Text × List PkgInfo) :=
   (uri, pkgs) :: docs.filter (·.1 != uri)
@@ -180,6 +182,20 @@ def reply (s : Srv) (reg name : Text) (o : Fetch.Outcome) : Srv × List Msg :=
 
 def close (s : Srv) (uri : Text) : Srv :=
   { s with docs := s.docs.filter (·.1 != uri), texts := s.texts.filter (·.1 != uri) }
+
+def textOf0 (texts : List (Text × Text)) (uri : Text) : Text := ((texts.find? (·.1 == uri)).map (·.2)).getD []
+
+/-- a diagnostic as it goes on the wire: `generate_diagnostics` replaces the byte columns by UTF-16 columns computed from
+    the text it was given (when the package's offsets fit that text) -/
+def wireDiag (content : Text) (d : Diag) : Diag :=
+  match Pos.utf16Span content d.c1 d.so d.eo with
+  | some (c, w) => { d with c1 := c, c2 := c + w }
+  | none => d
+
+/-- a message as it goes on the wire; every publication is computed from the text the server holds for that document -/
+def wire (s : Srv) : Msg → Msg
+  | .pub uri ds => .pub uri (ds.map (wireDiag (textOf0 s.texts uri)))
+  | m => m
 
 def textOf (s : Srv) (uri : Text) : Text := ((s.texts.find? (·.1 == uri)).map (·.2)).getD []
 
